@@ -551,7 +551,8 @@ def recipe_singleton_set(rng):
 def recipe_set_hook(rng):
     """a hook installed, then replaced, at run time (`set <w> hooks.<name> = "dotted.name[,flag]"`), with outcomes that say no
     or raise, with and without the ignore-failure flag — and then the operations that call it"""
-    first = {"before_spawn": {"out": ["true"], "ignore": rng.random() < 0.5}} if rng.random() < 0.4 else None
+    first = {"before_spawn": {"out": rng.choice([["true"], ["raise"], ["true", "raise"]]), "ignore": rng.random() < 0.4}} \
+        if rng.random() < 0.5 else None
     sc = {"arb": {"warmup_ms": 0}, "behav": [{"term": ["obey", 0], "kill_lat": 0, "spawn_ms": 1}],
           "watchers": [_w("a", np=rng.choice([1, 2]), respawn=rng.random() < 0.8, **({"hooks": first} if first else {}))]}
     pre = [["start"]] + [["wake"]] * 4
@@ -567,6 +568,13 @@ def recipe_set_hook(rng):
         key = ("hooks." + hn) if rng.random() < 0.6 else "hooks"
         opts = {key: val(fl)} if key != "hooks" else {"hooks": {hn: val(fl)}}
         pre += [_req("set", "h%d" % i, name="a", options=opts, waiting=True), ["wake"]]
+        if rng.random() < 0.35:
+            # a replacement that is REFUSED (the name does not resolve, or the flag is no boolean word) with the opposite flag:
+            # nothing of it may stick — neither the hook nor its flag
+            other = ",true" if fl in ("", ",false", ",0") else ""
+            bad = rng.choice(["nosuchmodule.fn" + other, "harness.simhooks.nosuch" + other, "harness.simhooks.o_t,maybe"])
+            pre += [_req("set", "b%d" % i, name="a", options=({"hooks." + hn: bad} if rng.random() < 0.6 else {"hooks": {hn: bad}}),
+                         waiting=True), ["wake"]]
         trig = rng.choice(["incr", "restart", "die", "stopstart"])
         if trig == "incr":
             pre += [_req("incr", "i%d" % i, name="a", waiting=True), ["wake"], ["wake"]]
